@@ -104,6 +104,24 @@ def gen_datetime(rng):
     return dt12, spec
 
 
+def same_instant_other_deviation(rng, spec):
+    """A date-time denoting the same UTC instant as spec, written with another deviation (None if not representable)."""
+    if spec["deviation"] is None:
+        return None
+    y, mo, d, h, mi, s = spec["civil"]
+    if not (2 <= y <= 9998):
+        return None
+    dev2 = rng.choice((0, 60, -60, 120, -120, spec["deviation"], 30, -720, 720))
+    local1 = datetime.datetime(y, mo, d, h, mi, s)
+    local2 = local1 + datetime.timedelta(minutes=spec["deviation"] - dev2)  # UTC = local + deviation
+    hund = spec["hundredths"]
+    status = rng.randrange(256)
+    dt12 = ce.datetime12(local2.year, local2.month, local2.day, 0xFF, local2.hour, local2.minute, local2.second, hund, dev2, status)
+    spec2 = {"civil": [local2.year, local2.month, local2.day, local2.hour, local2.minute, local2.second], "us": 0 if hund is None else hund * 10000,
+             "offset_min": -dev2, "status": status, "deviation": dev2, "hundredths": hund}
+    return dt12, spec2
+
+
 def check_datetime(got, spec) -> str | None:
     """None when got is the date-time described by spec, else a description of the difference."""
     if not isinstance(got, datetime.datetime):
@@ -311,8 +329,17 @@ def kaifa_case(rng, layout: str | None = None) -> Case:
         enc, exp = _kaifa_value(rng, name, tags)
         values.append(enc)
         expect_body[name] = exp
-    body = ce.kaifa_value_body(values)
     dt12, tagged, spec = apdu_variant(rng, allow_null=False)
+    if "meter_datetime" in expect_body and rng.random() < 0.25:
+        # the list clock names the same instant as the APDU clock, in another deviation (or the very same civil time)
+        alt = same_instant_other_deviation(rng, spec)
+        if alt is not None:
+            a12, aspec = alt
+            pos = order.index("meter_datetime")
+            values[pos] = ce.datetime_octets(a12)
+            expect_body["meter_datetime"] = ("dt", aspec)
+            tags.append("list_clock_same_instant_as_apdu")
+    body = ce.kaifa_value_body(values)
     frame = ce.apdu(body, dt12, tagged)
     expect_frame = dict(expect_body)
     if "meter_datetime" not in expect_frame:
